@@ -50,6 +50,15 @@ class Exec(Path):
             return                                  # docstring
         if _is_dropped_call(s.value):
             return
+        if isinstance(s.value, ast.Yield):
+            # generator = procedure with a ghost output sequence; `yield e` appends a snapshot of e
+            v = self.eval(s.value.value) if s.value.value is not None else VNone()
+            out = self.ghost.setdefault("yielded", [])
+            out.append(self.box(v))
+            hook = self.func_stack[-1].get("on_yield")
+            if hook:
+                hook(self, v)
+            return
         self.eval(s.value)
 
     def st_Pass(self, s):
@@ -264,11 +273,11 @@ class Exec(Path):
                     out.fields[k] = self.merge_val(c, h1.fields[k], h2.fields[k])
             return out
         if isinstance(h1, HFile):
-            if h1.pos.eq(h2.pos) and h1.closed == h2.closed:
+            if h1.pos.eq(h2.pos) and h1.tail.eq(h2.tail) and h1.closed == h2.closed:
                 return h1
             if h1.closed != h2.closed:
                 raise Unsupported("merge of open/closed file")
-            return HFile(h1.path, h1.content, z3.If(c, h1.pos, h2.pos), h1.mode, h1.closed)
+            return HFile(h1.path, h1.content, z3.If(c, h1.pos, h2.pos), h1.mode, h1.closed, z3.If(c, h1.tail, h2.tail))
         if isinstance(h1, HHash):
             return h1 if h1.acc.eq(h2.acc) else HHash(h1.algo, z3.If(c, h1.acc, h2.acc))
         if isinstance(h1, HSet):
@@ -420,8 +429,13 @@ class Exec(Path):
         spec, k = self.loop_spec(s)
         if s.orelse:
             raise Unsupported("for/else")
-        it = self.eval(s.iter)
-        seq = self.iter_source(it)
+        if spec is not None and spec.get("over"):
+            # the iterable is an iterator object whose protocol contract says it yields the ghost sequence `over`
+            gv = self.eval_contract_expr(spec["over"], want_bool=False)
+            seq = self.iter_source(gv)
+        else:
+            it = self.eval(s.iter)
+            seq = self.iter_source(it)
         if seq["kind"] == "concrete" and (spec is None or spec.get("unroll")):
             for item in seq["items"]:
                 self.assign(s.target, item)
@@ -643,7 +657,9 @@ class Exec(Path):
                 h.fields[f] = self.havoc_value(x, f"{name}_{f}")
         elif isinstance(h, HFile):
             h.pos = self.fresh(name + "_pos", I)
-            self.assume(z3.And(h.pos >= 0, h.pos <= z3.Length(h.content)))
+            h.tail = self.fresh(name + "_tail", BYTES)
+            h.path = self.fresh(name + "_path", S)
+            h.content = self.fresh(name + "_content", BYTES)
         elif isinstance(h, HHash):
             h.acc = self.fresh(name + "_acc", BYTES)
         elif isinstance(h, HSet):
@@ -951,6 +967,9 @@ class Exec(Path):
             return type(a)(z3.If(c, a.t, b.t))
         if isinstance(a, VNone) and isinstance(b, VNone):
             return a
+        ta, tb = self.bytes_term(a), self.bytes_term(b)
+        if ta is not None and tb is not None:
+            return VBytes(z3.If(c, ta, tb))
         return VBox(z3.If(c, self.box(a), self.box(b)))
 
     def ex_Tuple(self, n):
@@ -1054,6 +1073,8 @@ class Exec(Path):
 
     def norm_index(self, k, ln):
         if self.pure:
+            if self.entails(k >= 0):
+                return k
             return z3.If(k < 0, k + ln, k)
         if self.branch(k < 0):
             k = k + ln
@@ -1122,11 +1143,51 @@ class Exec(Path):
         def clamp(x, default):
             if x is None:
                 return default
+            if self.entails(z3.And(x >= 0, x <= ln)):
+                return x                      # bounds known from the path condition: no clamping needed
+            if self.entails(x >= ln):
+                return ln
+            if self.entails(x >= 0):
+                return z3.If(x > ln, ln, x)
             x = z3.If(x < 0, x + ln, x)
             return z3.If(x < 0, 0, z3.If(x > ln, ln, x))
         a = clamp(lo, z3.IntVal(0))
         b = clamp(hi, ln)
-        res = z3.SubSeq(t, a, z3.If(b > a, b - a, 0)) if not z3.is_string(t) else z3.SubString(t, a, z3.If(b > a, b - a, 0))
+        if lo is not None and hi is not None and self.entails(b >= a):
+            width = b - a
+        elif lo is None:
+            width = b
+        else:
+            width = z3.If(b > a, b - a, 0)
+        for kt, kn, kdata in self.ghost.get("known_slices", []):
+            if kt.eq(t) and z3.is_int_value(z3.simplify(a)) and z3.simplify(a).as_long() == 0 and z3.simplify(width - kn).eq(z3.IntVal(0)):
+                return mk(kdata)            # buf[:n] right after readinto(buf) -> the bytes just read
+        res = z3.SubSeq(t, a, width) if not z3.is_string(t) else z3.SubString(t, a, width)
+        if not z3.is_string(t):
+            # ground instances of slice lemmas (valid facts of the sequence theory that z3 does not find on its own)
+            self.assume(z3.Implies(z3.And(a == 0, width >= ln), res == t))
+            self.assume(z3.Implies(width <= 0, res == z3.Empty(t.sort())))
+            self.assume(z3.Implies(z3.And(a >= 0, width >= 0, a + width <= ln), z3.Length(res) == width))
+            ts = z3.simplify(t)
+            if z3.is_app(ts) and ts.decl().kind() == z3.Z3_OP_SEQ_CONCAT and ts.num_args() >= 2:
+                parts = [ts.arg(k) for k in range(ts.num_args())]
+
+                def cat(ps):
+                    if not ps:
+                        return z3.Empty(t.sort())
+                    return ps[0] if len(ps) == 1 else z3.Concat(*ps)
+                acc_len = z3.IntVal(0)
+                for j in range(1, len(parts)):
+                    acc_len = acc_len + z3.Length(parts[j - 1])
+                    pre, suf = cat(parts[:j]), cat(parts[j:])
+                    # the slice cuts exactly between part j-1 and part j
+                    self.assume(z3.Implies(z3.And(a == 0, width == acc_len), res == pre))
+                    self.assume(z3.Implies(z3.And(a == acc_len, width >= z3.Length(suf)), res == suf))
+                    self.assume(z3.Implies(z3.And(a == 0, width >= acc_len), res == z3.Concat(pre, z3.SubSeq(suf, 0, width - acc_len))))
+                    self.assume(z3.Implies(z3.And(a >= acc_len, hi is None),
+                                           res == z3.SubSeq(suf, a - acc_len, z3.Length(suf) - (a - acc_len))))
+                first = parts[0]
+                self.assume(z3.Implies(z3.And(a == 0, width <= z3.Length(first)), res == z3.SubSeq(first, 0, width)))
         return mk(res)
 
     def ex_Compare(self, n):
@@ -1309,7 +1370,7 @@ class Exec(Path):
                     self.raise_("ZeroDivisionError")
                 return VInt(self.pymod(x, y))
             if isinstance(op, ast.Div):
-                if not self.branch(y != 0):
+                if not self.pure and not self.branch(y != 0):
                     self.raise_("ZeroDivisionError")
                 self.engine.assumption("float-as-exact-rational: int/int true division read as the exact quotient")
                 return VFloat(z3.ToReal(x) / z3.ToReal(y))
@@ -1331,7 +1392,7 @@ class Exec(Path):
             self.engine.assumption("float-as-exact-rational: float product read exactly")
             return VFloat(x * y)
         if isinstance(op, ast.Div):
-            if not self.branch(y != 0):
+            if not self.pure and not self.branch(y != 0):
                 self.raise_("ZeroDivisionError")
             self.engine.assumption("float-as-exact-rational: float quotient read exactly")
             return VFloat(x / y)
@@ -1741,6 +1802,9 @@ class Exec(Path):
                 for trig in self.call_triggers(dict(ghosts)[used[0]]):
                     self.env[used[0]] = trig
                     self.assume(self.eval_contract_expr(expr))
+            for gname, gexpr in c.extra.get("ghost_out", {}).items():
+                gv = self.eval_contract_expr(gexpr, want_bool=False)
+                self.ghost[gname] = self.bytes_term(gv) if self.bytes_term(gv) is not None else gv
             post = c.extra.get("post_hook")
             if post:
                 post(self, bound, result)
